@@ -30,7 +30,7 @@ func init() {
 		sc.Buffer(make([]byte, 1<<20), 1<<24)
 		for sc.Scan() {
 			var f eng.BSFinal
-			if json.Unmarshal([]byte(strings.TrimSpace(sc.Text())), &f) == nil && len(f.Script.Msgs) > 0 {
+			if json.Unmarshal([]byte(strings.TrimSpace(sc.Text())), &f) == nil && f.Script.Ending != "" {
 				finals = append(finals, f)
 			}
 		}
